@@ -369,6 +369,13 @@ class AttributeCollection(MutableMapping[int, Attribute]):
                 # do not pack alike (the default path is only added when there is none): queued in one window of the
                 # outgoing RIB, both routes left with the attributes of one of them
                 idx += ' as-path [ ]'
+            for code in (Attribute.CODE.EXTENDED_COMMUNITY, Attribute.CODE.IPV6_EXTENDED_COMMUNITY):
+                if code in self:
+                    # the text of an extended community leaves octets out (target:1:1 is 0002 0001 00000001, 4002 ...
+                    # and 0202 00000001 0001; rate-limit drops its AS field): attributes which differ on the wire
+                    # shared an index -- a reload which changed one into the other sent nothing, and queued in one
+                    # window of the outgoing RIB both routes left with the communities of one of them
+                    idx += ' ' + bytes(getattr(self[code], '_packed', b'')).hex()
             nexthop = str(self.get(Attribute.CODE.NEXT_HOP, 'missing'))
             text = '{} next-hop {}'.format(idx, nexthop) if nexthop else idx
             self._idx = text.encode()
